@@ -249,16 +249,29 @@ def conf_functions(mod):
             (2, 1): lambda: f["set_query_timeout"](0.25), (2, 0): lambda: f["set_query_timeout"](default)}
 
 
-def fork_state(h, parent, child, proc):
+def lock_copier(h, proc):
+    """os.fork() copies a thread lock (a private lock in the same state, one copy per lock object,
+    whoever refers to it); a multiprocessing lock stays shared"""
+    copies = {}
+
+    def cp(v):
+        if id(v) not in copies:
+            lock = TLock(h, 100 + proc)
+            lock.owner, lock.count = v.owner, v.count
+            copies[id(v)] = lock
+        return copies[id(v)]
+
+    return cp
+
+
+def fork_state(parent, child, cp):
     """os.fork(): the child's module state is a copy of the parent's at that moment"""
     for k, v in list(vars(parent).items()):
         if k.startswith("__") or k in ("_rlock_type", "mp_RLock"):
             continue
-        if isinstance(v, TLock):  # a thread lock is copied: a private lock in the same state
-            lock = TLock(h, 100 + proc)
-            lock.owner, lock.count = v.owner, v.count
-            setattr(child, k, lock)
-        elif isinstance(v, MLock):  # a multiprocessing lock is shared
+        if isinstance(v, TLock):
+            setattr(child, k, cp(v))
+        elif isinstance(v, MLock):
             setattr(child, k, v)
         elif isinstance(v, REAL_RLOCK_TYPE):
             setattr(child, k, threading.RLock())
@@ -266,6 +279,19 @@ def fork_state(h, parent, child, proc):
             setattr(child, k, list(v))
         elif isinstance(v, PLAIN) or type(v).__module__.startswith("multiprocessing"):
             setattr(child, k, v)  # plain data is copied; shared memory (the cell-size Array) stays shared
+
+
+def carried(obj, method, cp):
+    """the process object as the child sees it: inherited (fork) or pickled (spawn) — a thread lock
+    does not cross the process boundary (fork: a private copy; spawn: it cannot be pickled)"""
+    out = ProcObj(obj.child)
+    for k, v in vars(obj).items():
+        if isinstance(v, TLock):
+            if method != "fork":
+                raise TypeError("cannot pickle '_thread.RLock' object (Process.start, start method %s)" % method)
+            v = cp(v)
+        setattr(out, k, v)
+    return out
 
 
 # ------------------------------------------------------------------ exchange scenarios
@@ -493,9 +519,11 @@ def run_schedule(case):
         h.ev(w, 8, self.child, handed.code if isinstance(handed, TracedLock) else 9)
         starts_conf.append([w.proc, int(bool(h.mods[w.proc]._queries_enabled)), int(bool(h.mods[w.proc]._swap_win_size))])
         if self.child not in h.mods:
+            cp = lock_copier(h, self.child)
+            seen = carried(self, method, cp)
             child = fresh_utils()
             if method == "fork":
-                fork_state(h, h.mods[w.proc], child, self.child)
+                fork_state(h.mods[w.proc], child, cp)
             instrument(child, self.child, fresh_lock=method != "fork")
             h.mods[self.child] = child
             h.conf[self.child] = conf_functions(child)
@@ -503,7 +531,7 @@ def run_schedule(case):
             # object carries) before any other thread of the child can exist
             h.prologue = True
             try:
-                child._process_run_wrapper(self)
+                child._process_run_wrapper(seen)
             finally:
                 h.prologue = False
         for x in h.workers.values():
